@@ -57,16 +57,22 @@ Definition read_rev (cur : N) (op : cop) : option N :=
   | _ => None
   end.
 
+(* a compaction request answered without an error: its header revision. On the overlapping schedules a request
+   may be answered at the step that spawns its thread (a call that returns before any engine call) *)
+Definition accepted (st : c08_step) : option N :=
+  match s8_op st, s8_obs st with
+  | CCompact _ _ _, OCompact h COk => Some h
+  | CCompact2 _ _, OCompact h COk => Some h
+  | CSpawn _ _ _, OCompact h COk => Some h
+  | CThread _ _, OCompact h COk => Some h
+  | _, _ => None
+  end.
+
 Definition c08_step_ok (cur floor : N) (st : c08_step) : bool :=
   let floor' := floor_of (s8_rec st) in
   rec_wfb (s8_rec st)
   && (floor <=? floor')                                             (* the floor only rises *)
-  && match s8_op st, s8_obs st with
-     | CCompact _ _ _, OCompact h COk => h <=? floor'               (* an accepted compaction sets the floor *)
-     | CCompact2 _ _, OCompact h COk => h <=? floor'
-     | CThread _ _, OCompact h COk => h <=? floor'
-     | _, _ => true
-     end
+  && match accepted st with Some h => h <=? floor' | None => true end   (* an accepted compaction sets the floor *)
   && match read_rev cur (s8_op st), s8_obs st with
      | Some r, ORead res => if r <? floor then rres_eqb res RErr else true   (* below the floor: refused *)
      | Some _, _ => false
@@ -84,10 +90,15 @@ Definition worse8 (a b : option N) : option N :=
   | None, y => y
   end.
 
+(* the floor the following reads are held to: the stored record or, if higher, the revision of a compaction the
+   backend has accepted - a read below an accepted compaction must be refused whatever the record says *)
+Definition next_floor (st : c08_step) : N :=
+  match accepted st with Some h => N.max (floor_of (s8_rec st)) h | None => floor_of (s8_rec st) end.
+
 Fixpoint c08_orc (cur floor : N) (steps : list c08_step) : option N :=
   match steps with
   | [] => None
-  | st :: t => worse8 (c08_step_verdict cur floor st) (c08_orc (s8_cur st) (floor_of (s8_rec st)) t)
+  | st :: t => worse8 (c08_step_verdict cur floor st) (c08_orc (s8_cur st) (N.max floor (next_floor st)) t)
   end.
 
 Definition c08_oracle (c : c08_case) : option N := c08_orc (c8_init c) 0 (c8_steps c).
